@@ -165,6 +165,15 @@ impl ActTask for Act {
             }
 
             if count == tasks.len() {
+                // an act that waits for an external completion (such as a subflow call) is not
+                // completed by the steps of its timeout rules; once it has failed and its catch
+                // has taken the error there is nothing left to wait for
+                let is_caught = task
+                    .with_data(|data| data.get::<bool>(consts::IS_CATCH_PROCESSED))
+                    .unwrap_or_default();
+                if !task.is_auto_complete() && !is_caught {
+                    return Ok(false);
+                }
                 if !task.state().is_completed() {
                     task.set_state(TaskState::Completed);
                 }
